@@ -137,8 +137,18 @@ package nfpm
 //
 //@ trusted func Get(format string) (p Packager, err error)
 //@   ensures [C15] registry-lookup: implies(err == nil, p != nil) && globStr("packagerAsked") == format
+//@   ensures [C13] fails-exactly-for-unregistered-formats: (err == nil) == ufBool("packagerRegistered", format)
 //@   modifies [C11 C12] glob("packagerAsked")
 //
 //@ trusted func ParseFile(path string) (config Config, err error)
 //@   ensures [C15] no-null-content-entries: implies(err == nil, contentsNonNil(config.Info.Contents) && forallStr(func(k string) bool { return !mapHas(config.Overrides, k) || config.Overrides[k] == nil || contentsNonNil(config.Overrides[k].Contents) }))
 //@   modifies [C11 C12]
+//
+//@ trusted func Validate(info *Info) (err error)
+//@   modifies [C11 C12]
+//
+//@ func (c *Config) Validate() (err error)
+//@   requires c != nil
+//@   ensures [C13] an-override-for-an-unregistered-format-is-rejected: implies(err == nil, forallStr(func(k string) bool { return !mapHas(c.Overrides, k) || ufBool("packagerRegistered", k) }))
+//@   loop 0
+//@     invariant [C13] visited-formats-are-registered: forallStr(func(k string) bool { return !visitedKey(c.Overrides, k) || ufBool("packagerRegistered", k) })
